@@ -935,6 +935,7 @@ def make_builtins(I):
     B["False"] = False
     B["NotImplemented"] = Opaque("NotImplemented")
     B["__name__"] = "__pyvc__"
+    B["NATIVE"] = False
 
     def _len(I, st, a, k):
         v = a[0]
@@ -1572,6 +1573,10 @@ def make_ext_modules(I):
         yield st, dc(a[0])
 
     E["copy"] = {"copy": bi("copy.copy", cp_copy), "deepcopy": bi("copy.deepcopy", cp_deepcopy)}
+    from .values import Partial
+
+    E["functools"] = {"partial": bi("functools.partial", lambda I, st, a, k: iter([(st, Partial(a[0], a[1:], k))])),
+                      "lru_cache": bi("functools.lru_cache", lambda I, st, a, k: iter([(st, a[0] if a else Opaque("lru_cache"))]))}
     E["operator"] = {}
     E["warnings"] = {"warn": bi("warnings.warn", lambda I, st, a, k: iter([(st, None)]))}
 
